@@ -106,6 +106,21 @@ def build(src):
     if src['variant'] == 'shuffle':
         storage = list(range(ni + ng))
         r.shuffle(storage)
+    if src['variant'] == 'interleave':
+        # still topological, but the inputs are stored where they are first needed (not first, not in their
+        # declared order), gates as early as possible
+        placed, storage = set(), []
+        pend_inputs = list(range(ni))
+        r.shuffle(pend_inputs)
+        for k, (t, ops) in enumerate(gs):
+            for o in ops:
+                if o <= ni and (o - 1) not in placed:
+                    storage.append(o - 1)
+                    placed.add(o - 1)
+            storage.append(ni + k)
+        for j in pend_inputs:
+            if j not in placed:
+                storage.append(j)
     return gen.materialize(net, labels=labels, outputs=src['outs'], storage=storage)
 
 
